@@ -440,7 +440,9 @@ func (user *userImpl) CollectionChannelGrantedPeriods(scope, collection, chanNam
 		}
 	}
 
-	roles, err := user.GetRoles()
+	// Include roles that are still assigned but have been deleted: their channels were moved to the role's channel
+	// history at the deletion sequence.
+	roles, err := user.GetRolesIncDeleted()
 	if err != nil {
 		return nil, err
 	}
